@@ -11,7 +11,7 @@
 From Coq Require Import List NArith ZArith Bool.
 From NV Require Import Syntax.Token Syntax.Ast Syntax.StmtAst Syntax.Parser Syntax.Grammar
      Syntax.ParserProofs Syntax.GrammarProofs Syntax.OpTableCheck Syntax.LexTable Syntax.FuelProofs
-     Syntax.SoundProofs Syntax.TypeGrammar Syntax.TypeProofs Syntax.StmtGrammar Syntax.StmtProofs Syntax.Lexer Syntax.LexNumber Syntax.LexIdent Gen.OpTable.
+     Syntax.SoundProofs Syntax.SoundSeq Syntax.TypeGrammar Syntax.TypeProofs Syntax.StmtGrammar Syntax.StmtProofs Syntax.Lexer Syntax.LexNumber Syntax.LexIdent Gen.OpTable.
 Import ListNotations.
 
 (* Every well-formed derivation tree, of any size and nesting depth, is read back as exactly
@@ -177,8 +177,21 @@ Theorem C10_characterised : forall ts st,
 Proof. exact parse_characterised. Qed.
 Print Assumptions C10_characterised.
 
+(* Several statements: on token lists without line breaks and trailing commas whose statements
+   (separated by `;`) all start like a statement of the fragment, whatever the parser accepts is the
+   `;`-separated print of well-formed statements (a trailing `;` allowed) and the result is the list
+   of their meanings. *)
+Theorem C10_sound_seq : forall ts ss,
+  core ts = true -> simple_start ts = true -> after_semis ts = true -> parse ts = Ok ss [] ->
+  ts = [] /\ ss = [] \/
+  exists stmts trailing, stmts <> [] /\ Forall (fun s => wf_stmt s = true) stmts
+    /\ ts = pr_semi stmts trailing /\ ss = map desugar_stmt stmts.
+Proof. exact parse_sound_seq. Qed.
+Print Assumptions C10_sound_seq.
+
 (* NOT PROVED (partial): soundness for token lists with newlines (skipped inside argument lists,
-   conditionals and literals), trailing commas and several statements.
+   conditionals and literals), trailing commas, and for the definition forms (fn, unit, dimension, struct,
+   use, annotated / decorated let), for which only the direction C10_roundtrip_def is proved.
    There the correspondence check and the reference recogniser decide. *)
 Definition C10_full : Prop :=
   forall ts ss, parse ts = Ok ss [] ->
